@@ -1,3 +1,226 @@
-import CLModel.Model.Wire
+import CLModel.Proofs.Wire
+import CLModel.Proofs.Codec
+/-!
+# C15 — Serialization round-trips and older layouts stay readable
+
+Theorems about the executable models `CL.Codec` (primitive codecs, on top of `CL.BN`, `CL.Sc`),
+`CL.Curve` (byte forms of points) and `CL.Wire` (layout logic written in this repository: the
+two hand-written `Deserialize` impls with their legacy fields, the skip/default rules of
+`RevocationRegistryDelta`, the frozen field table).  `serde`, `serde_json`, `rmp-serde` are
+exercised by the correspondence stream `ser`, not modelled.
+-/
 namespace CL.C15
+open CL.Outcome CL.Wire
+
+/-! ## primitive round trips (all values) -/
+
+/-- **big-endian bytes of a natural number decode to it** (`BigNumber::to_bytes` / `from_bytes`,
+the binary form serde uses under OpenSSL) -/
+theorem bytes_round_trip (n : ℕ) : Codec.implBnBytes (Codec.bnBytesEncode (n : ℤ)) = ok (n : ℤ) := by
+  simp only [Codec.implBnBytes, Codec.bnBytesEncode, BN.Spec.fromBytes, Int.natAbs_natCast]
+  rw [BN.ofDigits_toDigits 256 (by norm_num)]
+
+/-- **`bytes_loses_sign`**: the binary form is the magnitude only — for every negative integer the
+bytes written decode to its absolute value, not to the integer.  Model-level statement of the
+defect `C15/negative_bignumber_msgpack_openssl` (confirmed on the real code by the stream `ser`:
+a negative `BigNumber` does not survive a MessagePack round trip under the OpenSSL back-end). -/
+theorem bytes_loses_sign (z : ℤ) (h : z < 0) :
+    Codec.implBnBytes (Codec.bnBytesEncode z) = ok (-z) ∧
+    Codec.implBnBytes (Codec.bnBytesEncode z) ≠ ok z := by
+  have e : Codec.implBnBytes (Codec.bnBytesEncode z) = ok (-z) := by
+    simp only [Codec.implBnBytes, Codec.bnBytesEncode, BN.Spec.fromBytes]
+    rw [BN.ofDigits_toDigits 256 (by norm_num)]
+    congr 1; omega
+  refine ⟨e, ?_⟩
+  rw [e]; intro h2
+  have : -z = z := by injection h2
+  omega
+
+example : Codec.implBnBytes (Codec.bnBytesEncode (-5)) = ok 5 := by decide
+
+/-- **decimal text of an integer reads back as that integer**, for every integer of either sign,
+on both back-ends (`to_dec` then `from_dec`: the human-readable form, and the only form under the
+pure-Rust back-end) -/
+theorem dec_round_trip (b : Codec.Backend) (z : ℤ) :
+    Codec.implBnText b 10 (Codec.bnDecEncode z) = ok z := by
+  rw [Codec.implBnText_eq_spec b 10 (Or.inl rfl)]
+  exact BN.Spec.parseNumeral_print 10 (Or.inl rfl) z
+
+/-- **the 64-digit hexadecimal text of a scalar `x < r` reads back as `x`** (`to_string` /
+`from_string` of `GroupOrderElement`) -/
+theorem scalar_hex_round_trip (x : ℕ) (h : x < Sc.r) : Codec.implScText (Sc.toHex x) = ok x :=
+  Codec.sc_fromString_toHex x h
+
+/-- **the 32-byte form of a scalar `x < r` reads back as `x`** -/
+theorem scalar_bytes_round_trip (x : ℕ) (h : x < Sc.r) :
+    (Sc.toBytes x).length = 32 ∧ Codec.implScBytes (Sc.toBytes x) = ok x :=
+  ⟨Sc.length_toBytes x, Sc.fromBytes_toBytes x h⟩
+
+open CL.Curve in
+/-- **the 128-byte form of an affine point of the twist reads back as that point**: for all
+coordinates `< p` satisfying the curve equation (`ECP2::tobytes` / `frombytes` behind `PointG2`,
+`Tail`, keys, proofs) -/
+theorem g2_bytes_round_trip (x y : F2) (hxa : x.a < p) (hxb : x.b < p) (hya : y.a < p) (hyb : y.b < p)
+    (hc : onCurveAff B2 x y = true) :
+    implG2Bytes (g2BytesOfAffine x y) = .ok (.aff x y) :=
+  (g2_round x y hxa hxb hya hyb hc).1
+
+open CL.Curve in
+/-- the identity (empty accumulator, witness of a single credential) is written as `(0, 1)` and
+reads back as the identity -/
+theorem g2_identity_bytes_round_trip : implG2Bytes g2IdBytes = .ok .inf := by decide +kernel
+
+/-! ## legacy layouts (`rms`, `m1`) -/
+
+/-- **`legacy_key_equiv`**: decoding a `CredentialPrimaryPublicKey` document in the legacy layout
+(`rms` beside `r`) equals decoding the current layout of the converted document
+(`rms → r["master_secret"]`, skipped when `rms` is zero), whatever the leaves are and however
+`isZero` decides `rms != BigNumber::default()`; the converted document has no `rms` -/
+theorem legacy_key_equiv (isZero : J → Bool) (j : J) :
+    decodeLegacy keySpec isZero (convertLegacy keySpec isZero j) = decodeLegacy keySpec isZero j :=
+  decodeLegacy_convert keySpec isZero (by decide) (by decide) (by decide) j
+
+/-- **`legacy_eq_proof_equiv`**: the same for `PrimaryEqualProof` (`m1 → m["master_secret"]`) -/
+theorem legacy_eq_proof_equiv (isZero : J → Bool) (j : J) :
+    decodeLegacy eqProofSpec isZero (convertLegacy eqProofSpec isZero j) =
+      decodeLegacy eqProofSpec isZero j :=
+  decodeLegacy_convert eqProofSpec isZero (by decide) (by decide) (by decide) j
+
+/-- the converted documents carry no legacy field -/
+theorem legacy_converted_has_no_legacy_field (isZero : J → Bool) (o : Obj) :
+    (∃ o', convertLegacy keySpec isZero (.obj o) = .obj o' ∧ getField "rms" o' = none) ∧
+    (∃ o', convertLegacy eqProofSpec isZero (.obj o) = .obj o' ∧ getField "m1" o' = none) :=
+  ⟨convertLegacy_no_legacy keySpec isZero (by decide) o, convertLegacy_no_legacy eqProofSpec isZero (by decide) o⟩
+
+/-- **the current layout never emits `rms` / `m1`**, and what it emits decodes to the object -/
+theorem current_layout_round_trip (isZero : J → Bool) (n s rctxt z : J) (r : Obj)
+    (ra ap e v m2 : J) (m : Obj) :
+    (∃ o, encodeCurrent keySpec ⟨[n, s, rctxt, z], r⟩ = .obj o ∧ getField "rms" o = none) ∧
+    decodeLegacy keySpec isZero (encodeCurrent keySpec ⟨[n, s, rctxt, z], r⟩) = some ⟨[n, s, rctxt, z], r⟩ ∧
+    (∃ o, encodeCurrent eqProofSpec ⟨[ra, ap, e, v, m2], m⟩ = .obj o ∧ getField "m1" o = none) ∧
+    decodeLegacy eqProofSpec isZero (encodeCurrent eqProofSpec ⟨[ra, ap, e, v, m2], m⟩) =
+      some ⟨[ra, ap, e, v, m2], m⟩ := by
+  refine ⟨⟨_, rfl, by rfl⟩, by rfl, ⟨_, rfl, by rfl⟩, by rfl⟩
+
+/-- a leaf test used in the examples: the text `"0"` -/
+def isZeroStr : J → Bool
+  | .str s => s == "0"
+  | _ => false
+
+/-- non-vacuity: a legacy key with a non-zero `rms` gains the entry, with a zero `rms` it does not -/
+example : decodeLegacy keySpec isZeroStr
+    (.obj [("n", .str "1"), ("s", .str "2"), ("rms", .str "7"), ("r", .obj [("age", .str "3")]), ("rctxt", .str "4"), ("z", .str "5")])
+    = some ⟨[.str "1", .str "2", .str "4", .str "5"], [("master_secret", .str "7"), ("age", .str "3")]⟩ := by rfl
+example : decodeLegacy keySpec isZeroStr
+    (.obj [("n", .str "1"), ("s", .str "2"), ("rms", .str "0"), ("r", .obj [("age", .str "3")]), ("rctxt", .str "4"), ("z", .str "5")])
+    = some ⟨[.str "1", .str "2", .str "4", .str "5"], [("age", .str "3")]⟩ := by rfl
+
+/-! ## `RevocationRegistryDelta` -/
+
+/-- **`delta_layout`**: for all four (eight, with `prevAccum`) emptiness combinations the document
+written for a delta decodes to the delta; `prevAccum`, `issued`, `revoked` appear in the document
+exactly when they are `Some` / non-empty (camelCase names) -/
+theorem delta_layout (d : Delta) (hp : ∀ a, d.prev = some a → a.isNull = false) :
+    decodeDelta (encodeDelta d) = some d ∧
+    (∃ o, encodeDelta d = .obj o ∧
+      ((getField "prevAccum" o).isSome = d.prev.isSome) ∧
+      ((getField "issued" o).isSome = !d.issued.isEmpty) ∧
+      ((getField "revoked" o).isSome = !d.revoked.isEmpty) ∧
+      (getField "accum" o = some d.acc)) := by
+  obtain ⟨prev, acc, issued, revoked⟩ := d
+  have hi := readNats_natArr issued
+  have hr := readNats_natArr revoked
+  cases prev with
+  | none =>
+    cases issued with
+    | nil =>
+      cases revoked with
+      | nil => exact ⟨by rfl, _, rfl, by rfl, by rfl, by rfl, by rfl⟩
+      | cons r rs =>
+        refine ⟨?_, _, rfl, by rfl, by rfl, by rfl, by rfl⟩
+        try simp only [List.map_cons, Int.ofNat_eq_coe] at hi hr
+        simp +decide [encodeDelta, decodeDelta, getField, natArr, readSet, hi, hr]
+        try exact hnn
+    | cons i is =>
+      cases revoked with
+      | nil =>
+        refine ⟨?_, _, rfl, by rfl, by rfl, by rfl, by rfl⟩
+        try simp only [List.map_cons, Int.ofNat_eq_coe] at hi hr
+        simp +decide [encodeDelta, decodeDelta, getField, natArr, readSet, hi, hr]
+        try exact hnn
+      | cons r rs =>
+        refine ⟨?_, _, rfl, by rfl, by rfl, by rfl, by rfl⟩
+        try simp only [List.map_cons, Int.ofNat_eq_coe] at hi hr
+        simp +decide [encodeDelta, decodeDelta, getField, natArr, readSet, hi, hr]
+        try exact hnn
+  | some a =>
+    have ha : a.isNull = false := hp a rfl
+    have hnn : (match some a with | some .null => none | x => x) = some a := by
+      cases a <;> simp_all [J.isNull]
+    cases issued with
+    | nil =>
+      cases revoked with
+      | nil =>
+        refine ⟨?_, _, rfl, by rfl, by rfl, by rfl, by rfl⟩
+        try simp only [List.map_cons, Int.ofNat_eq_coe] at hi hr
+        simp +decide [encodeDelta, decodeDelta, getField, natArr, readSet, hi, hr]
+        try exact hnn
+      | cons r rs =>
+        refine ⟨?_, _, rfl, by rfl, by rfl, by rfl, by rfl⟩
+        try simp only [List.map_cons, Int.ofNat_eq_coe] at hi hr
+        simp +decide [encodeDelta, decodeDelta, getField, natArr, readSet, hi, hr]
+        try exact hnn
+    | cons i is =>
+      cases revoked with
+      | nil =>
+        refine ⟨?_, _, rfl, by rfl, by rfl, by rfl, by rfl⟩
+        try simp only [List.map_cons, Int.ofNat_eq_coe] at hi hr
+        simp +decide [encodeDelta, decodeDelta, getField, natArr, readSet, hi, hr]
+        try exact hnn
+      | cons r rs =>
+        refine ⟨?_, _, rfl, by rfl, by rfl, by rfl, by rfl⟩
+        try simp only [List.map_cons, Int.ofNat_eq_coe] at hi hr
+        simp +decide [encodeDelta, decodeDelta, getField, natArr, readSet, hi, hr]
+        try exact hnn
+
+/-- empties are defaulted on input: a document with `accum` only is the delta without
+predecessor and with empty sets -/
+theorem delta_defaults (a : J) : decodeDelta (.obj [("accum", a)]) = some ⟨none, a, [], []⟩ := rfl
+
+/-- a leaf test used in the examples: accumulators are the text leaves -/
+def isStr : J → Bool
+  | .str _ => true
+  | _ => false
+
+/-- **positional (compact MessagePack) form, nothing skipped**: the round trip is the identity -/
+theorem delta_compact_partial (accOk : J → Bool) (a b : J) (i r : ℕ) (is rs : List ℕ)
+    (ha : accOk a = true) (hb : accOk b = true) (han : a.isNull = false) :
+    decodeDeltaSeq accOk (encodeDeltaSeq ⟨some a, b, i :: is, r :: rs⟩) =
+      some ⟨some a, b, i :: is, r :: rs⟩ := by
+  have hi := readNats_natArr (i :: is)
+  have hr := readNats_natArr (r :: rs)
+  simp only [List.map_cons, Int.ofNat_eq_coe] at hi hr
+  simp +decide [encodeDeltaSeq, natArr, decodeDeltaSeq, ha, hb, han, hi, hr]
+
+/-- **finding `C15/msgpack_compact_delta_skipped_field`** (machine-checked description): in the
+positional form a skipped field shifts the others — a delta that only revokes index 5 is read
+back as a delta that ISSUES index 5, and a delta without predecessor does not decode at all -/
+theorem delta_compact_finding_skipped_field :
+    decodeDeltaSeq isStr (encodeDeltaSeq ⟨some (.str "acc"), .str "acc", [], [5]⟩)
+      = some ⟨some (.str "acc"), .str "acc", [5], []⟩ ∧
+    decodeDeltaSeq isStr (encodeDeltaSeq ⟨none, .str "acc", [], []⟩) = none ∧
+    decodeDeltaSeq isStr (encodeDeltaSeq ⟨none, .str "acc", [1], [2]⟩) = none := by
+  refine ⟨by rfl, by rfl, by rfl⟩
+
+/-! ## the field table -/
+
+/-- **`wire_tables_frozen`**: the layout table used by `wire_check` renders to exactly the table
+recorded from the source tree by `tools/record_wire.py` (135 entries: every field name incl.
+`ge_proofs`, `prevAccum`, the skip and default rules, the transparent newtypes, the two legacy
+fields).  `./check C15` re-runs the recorder against the working tree on every run. -/
+theorem wire_tables_frozen : flat table = recorded := by decide
+
+example : lookupLayout "Tail" = some (.transparent .g2) := by decide
+example : lookupLayout "Accumulator" = some (.transparent .g2inf) := by decide
+
 end CL.C15
